@@ -29,7 +29,12 @@ def build(cls, s1, s2, s3, mask, n, foreign, depth=0):
                     setattr(inst, pyname, build(ccls, s2, s1, "c", 0, 1, False, depth + 1))
     if foreign:
         inst.extension_attributes["{%s}fa" % FOREIGN_NS] = s3
-        inst.extension_elements.append(ExtensionElement("fchild", namespace=FOREIGN_NS, text=s1, attributes={"k": s2}))
+        inst.extension_elements.append(ExtensionElement(
+            "fchild", namespace=FOREIGN_NS, text=s1, attributes={"k": s2},
+            children=[ExtensionElement("g1", namespace=FOREIGN_NS, text=s2),
+                      ExtensionElement("g2", namespace=FOREIGN_NS, attributes={"a": s1},
+                                       children=[ExtensionElement("h1", namespace=FOREIGN_NS), ExtensionElement("h2", namespace=FOREIGN_NS, text=s3)]),
+                      ExtensionElement("g3", namespace=FOREIGN_NS)]))
     return inst
 
 
@@ -103,6 +108,27 @@ def roundtrip(ci: int, s1: str, s2: str, s3: str, mask: int, n: int, foreign: bo
     return ok, True, "class=%s" % cls.__name__
 
 
+# (base type, derived element) pairs where the derived class declares children the base does not:
+# serialising the base first must not influence how the derived class is serialised afterwards
+PAIRS = []
+for _i, _c in enumerate(UNIVERSE):
+    for _b in _c.__mro__[1:]:
+        if _b in UNIVERSE and set(_c.c_children) - set(_b.c_children):
+            PAIRS.append((UNIVERSE.index(_b), _i))
+            break
+NPQ = len([p for p in PAIRS if p[1] < NQUICK])
+
+
+def after_base(pi: int, s1: str, s2: str, s3: str, mask: int):
+    """History in one process: serialise and parse an instance of a base type, then round-trip an
+    instance of a class derived from it."""
+    from veriflib.boot import concrete
+    b, d = PAIRS[concrete(pi)]
+    r1 = roundtrip(b, s1, s2, s3, mask, 1, False)
+    r2 = roundtrip(d, s2, s1, s3, 63, 2, True)
+    return r1[0] and r2[0], True, "base=%s derived=%s" % (UNIVERSE[b].__name__, UNIVERSE[d].__name__)
+
+
 def _parts(idx):
     return [{"ci": i} for i in idx]
 
@@ -118,9 +144,18 @@ CONDITIONS = [
                     "SamlBase._convert_element_attribute_to_member", "ExtensionElement.become_child_element_of/_to_element_tree/harvest_element_tree",
                     "the generated c_children / c_attributes / c_child_order tables of every schema class"],
          bounds="per class: every declared attribute populated with two symbolic strings (<= 3 chars, alternating), symbolic text, every subset (6-bit mask) of declared children "
-                "present, list children 1-2 times, one level of nesting, foreign attribute and foreign child present/absent. quick: saml, samlp, md, xmldsig, xmlenc (281 classes); "
+                "present, list children 1-2 times, one level of nesting, foreign attribute and a foreign child (itself with three children, one of them nested two deep) present/absent. quick: saml, samlp, md, xmldsig, xmlenc (281 classes); "
                 "thorough: all schema modules"),
 ]
+
+CONDITIONS.append(
+    Cond(name="after_base", fn="after_base", params=[("pi", "int"), ("s1", "str"), ("s2", "str"), ("s3", "str"), ("mask", "int")],
+         pre=["len(s1) <= 2", "len(s2) <= 2", "1 <= len(s3) <= 2", "0 <= mask < 64"],
+         partitions={"quick": [{"pi": i, "mask": 21} for i in range(0, NPQ, 2)], "thorough": [{"pi": i} for i in range(len(PAIRS))]},
+         timeout={"quick": 300, "thorough": 600}, path_timeout=60,
+         functions=["SamlBase._get_all_c_children_with_order", "SamlBase._to_element_tree", "saml2_tophat.create_class_from_element_tree"],
+         bounds="two-step histories: for (base type, derived element) pairs whose derived class adds children (%d pairs; quick: every second pair of the core modules), "
+                "serialise the base, then round-trip the derived class with all children present" % len(PAIRS)))
 
 ASSUMPTIONS = [
     "element-tree level only: ElementTree.tostring / expat (C) are outside the claim - 'serialising again gives identical text' is decided as 'gives an equal tree'",
